@@ -28,17 +28,16 @@ META = {
 def failure_key(text, vm_obs, cls):
     """same naming as the adapter's failureKey (harness/cmd/vh-lang/main.go)"""
     pm = L.first_panic(vm_obs)
-    key = L.panic_key(pm) if pm else "vm-mismatch " + text
-    if cls == "pe":
-        if not pm:
-            key = "vm-mismatch"
-        key = "closure-escaped-from-partial-application: " + key
-    return key
+    if not pm:
+        return "closure-escaped-from-partial-application: vm-mismatch" if cls == "pe" else "vm-mismatch " + text
+    if cls == "pe" and "OpLoad of invalid value" in pm:
+        return "closure-escaped-from-partial-application: " + L.panic_key(pm)
+    return L.panic_key(pm)
 
 
 def run(ctx):
-    jobs = ctx.pick([("core", 3), ("lambda", 4), ("partial", 5), ("pairs", 5)],
-                    [("core", 4), ("lambda", 5), ("partial", 6), ("pairs", 6), ("callonly", 7)])
+    jobs = ctx.pick([("core", 3), ("lambda", 4), ("partial", 5), ("pairs", 4)],
+                    [("core", 4), ("lambda", 5), ("partial", 6), ("pairs", 5), ("callonly", 6)])
     enum = L.enumerate_programs(ctx, jobs, "case")
     binary = ctx.go_build("vh-lang")
 
@@ -67,7 +66,7 @@ def run(ctx):
         ctx.distinct_cases.add(L.show(c["p"]))
 
     # binding B: named + random programs above the exhaustive bound; VM first, TLC judges the log
-    progs = L.named_programs() + L.random_programs(ctx.seed, ctx.pick(2500, 40000), maxdepth=ctx.pick(4, 5),
+    progs = L.named_programs() + L.random_programs(ctx.seed, ctx.pick(1500, 15000), maxdepth=ctx.pick(4, 5),
                                                     maxsize=ctx.pick(18, 26))
     ocases = [{"id": i, "p": p, "simplify": False} for i, p in enumerate(progs)]
     ovs = ctx.run_cases(binary, "observe", ocases, name="observe", timeout_ms=30000)
